@@ -2,18 +2,19 @@
 """Run every seeded change against the check of the property it breaks (apply to /repo, run, revert) and write seeded/RESULTS.md"""
 import glob, json, os, re, subprocess, sys
 ROOT = os.path.dirname(os.path.abspath(__file__))
+REPO = os.environ.get("VERIF_REPO", "/repo")
 rows = []
 ids = sys.argv[1:] or sorted(os.path.basename(d.rstrip("/")) for d in glob.glob(ROOT + "/seeded/C*-*/"))
-assert subprocess.run("git -C /repo status --porcelain", shell=True, stdout=subprocess.PIPE, text=True).stdout.strip() == "", "/repo not clean"
+assert subprocess.run(f"git -C {REPO} status --porcelain", shell=True, stdout=subprocess.PIPE, text=True).stdout.strip() == "", "/repo not clean"
 for sid in ids:
     pid = sid.split("-")[0]
-    a = subprocess.run(f"git -C /repo apply {ROOT}/seeded/{sid}/patch.diff", shell=True)
+    a = subprocess.run(f"git -C {REPO} apply {ROOT}/seeded/{sid}/patch.diff", shell=True)
     if a.returncode != 0:
         rows.append((sid, pid, "patch does not apply", "")); continue
     try:
         r = subprocess.run([ROOT + "/check", pid], stdout=subprocess.PIPE, stderr=subprocess.STDOUT, text=True, env=dict(os.environ, VERIF_NOCACHE="1"))
     finally:
-        subprocess.run("git -C /repo checkout -- .", shell=True)
+        subprocess.run(f"git -C {REPO} checkout -- .", shell=True)
     out = r.stdout
     if r.returncode == 1:
         obs = re.findall(r"^\s+obligation (\S+?)#(\S+?)@", out, re.M)
